@@ -8,7 +8,9 @@
 (* State of the dictionary under test:                                     *)
 (*   items   : Seq(<<lower key, value>>)                                   *)
 (*   factory : "None" | "Dict"                                             *)
-(*   heap    : id -> mutable object ([k |-> "list"|"dict"|"ci", elems])    *)
+(*   heap    : id -> mutable object ([k |-> "list"|"dict"|"ci", elems]);   *)
+(*             the elems of a dict object are its values, stored under the *)
+(*             keys k1, k2, ...                                            *)
 (*             values are [t |-> "int"|"none", n] or references            *)
 (*             [t |-> "ref", n |-> id]; identities express aliasing:       *)
 (*             copy shares the values, deepcopy / pickle share none.       *)
@@ -65,15 +67,18 @@ Nth(S, j)  == CHOOSE x \in S : Rank(x, S) = j
 
 RefsOf(vs)   == {vs[i].n : i \in {j \in DOMAIN vs : vs[j].t = "ref"}}
 ValsOf(its)  == [i \in DOMAIN its |-> its[i][2]]
-Reach(its, h) == LET top == RefsOf(ValsOf(its))
-                     snd == UNION {RefsOf(h[i].elems) : i \in top}
-                 IN  top \cup snd \cup UNION {RefsOf(h[i].elems) : i \in snd}
+\* everything reachable from the items, at any nesting depth
+RECURSIVE Closure(_, _)
+Closure(Sx, h) == LET nxt == Sx \cup UNION {RefsOf(h[i].elems) : i \in Sx}
+                  IN  IF nxt = Sx THEN Sx ELSE Closure(nxt, h)
+Reach(its, h) == Closure(RefsOf(ValsOf(its)), h)
 Live         == Reach(items, heap)
 Avail(L)     == (1..MaxId) \ L
 
 \* Alloc: turn a value spec into a value, allocating new objects outside L
 Alloc(vs, h, L) ==
-    CASE vs = "i1"   -> [v |-> I(1),  h |-> h, new |-> {}]
+    CASE vs = "i0"   -> [v |-> I(0),  h |-> h, new |-> {}]                 \* falsy number
+      [] vs = "i1"   -> [v |-> I(1),  h |-> h, new |-> {}]
       [] vs = "i2"   -> [v |-> I(2),  h |-> h, new |-> {}]
       [] vs = "none" -> [v |-> NoneV, h |-> h, new |-> {}]
       [] vs \in {"list", "dict", "ci"} ->
@@ -82,6 +87,17 @@ Alloc(vs, h, L) ==
             LET a == Min(Avail(L))
                 b == Min(Avail(L \cup {a}))
             IN  [v |-> R(a), h |-> [h EXCEPT ![a] = Obj("list", <<R(b)>>), ![b] = Obj("ci", <<>>)], new |-> {a, b}]
+
+      [] vs = "llist" ->                                     \* a list of lists: [[1]]  (POINTS with several parts)
+            LET a == Min(Avail(L))
+                b == Min(Avail(L \cup {a}))
+            IN  [v |-> R(a), h |-> [h EXCEPT ![a] = Obj("list", <<R(b)>>), ![b] = Obj("list", <<I(1)>>)], new |-> {a, b}]
+      [] vs = "dll" ->                                       \* a Mapfile dict holding a list of lists: {k1: [[1], 2]}
+            LET a == Min(Avail(L))
+                b == Min(Avail(L \cup {a}))
+                c == Min(Avail(L \cup {a, b}))
+            IN  [v |-> R(a), h |-> [h EXCEPT ![a] = Obj("ci", <<R(b)>>), ![b] = Obj("list", <<R(c), I(2)>>),
+                                             ![c] = Obj("list", <<I(1)>>)], new |-> {a, b, c}]
 
 RECURSIVE AllocPairs(_, _, _)
 AllocPairs(ps, h, L) ==
@@ -265,7 +281,7 @@ CopyLaw ==
           /\ o.ret.f = factory /\ o.ret.cls = Cls
           /\ Len(o.ret.items) = Len(items)
           /\ \A i \in DOMAIN items : /\ o.ret.items[i][1] = items[i][1]
-                                     /\ SameContent(o.ret.items[i][2], items[i][2], o.hp, 3)
+                                     /\ SameContent(o.ret.items[i][2], items[i][2], o.hp, 6)
           /\ Reach(o.ret.items, o.hp) \cap Reach(items, heap) = {}
           /\ (~o.op.adopt => items' = items))
 CopyLaws == [][CopyLaw]_vars
